@@ -26,6 +26,6 @@ Then write a demonstration: a shell script or small Rust integration test (put i
 Deliverables, all under {wt}/_out/ :
  - patch.diff : `git -C {wt} diff -- src` of your change (only files under src/),
  - demo.sh (or demo_test.rs + how to run it) : usage `demo.sh <path-to-n2-source-tree>` building that tree (use a CARGO_TARGET_DIR inside the tree) and running the scenario,
- - notes.md : what the change is, why it breaks the property, what is needed for it to manifest, and the exact commands you ran with their results (tests green with the change; demo fails with the change and passes without it — verify the 'without' case with `git stash` or a second copy).
+ - notes.md : what the change is, why it breaks the property, what is needed for it to manifest, and the exact commands you ran with their results (tests green with the change; demo fails with the change and passes without it — verify the 'without' case with `git diff -- src > /tmp/x.diff; git checkout -- src; ...; git apply /tmp/x.diff` or a second copy; do NOT use `git stash`, its ref is shared with other worktrees).
 
 Verify everything yourself before finishing. Keep the change minimal (a few lines). Reply with a short summary (changed file/function, what manifests it, verification results).""")
